@@ -43,4 +43,5 @@ package labels
 //@   ensures [regexp-compiled] result1 == nil && (t == MatchRegexp || t == MatchNotRegexp) ==> result0.re != nil
 //@   ensures [error-means-nothing] result1 != nil ==> result0 == nil
 //@   after call regexp.Compile assume (res1 == nil) == (res0 != nil)
+//@   at call regexp.Compile assert [the-whole-value-must-match] arg0 == "^(?:" + v + ")$"
 //@   assigns nothing
